@@ -8,10 +8,15 @@ from lib.emusrv import i32, i64
 from checks.c13 import expected_rows
 
 
+class Named(list):
+    """a rank configuration with its own loom names"""
+    names = ("zeta", "alpha")
+
+
 def system(ranks):
     """ranks: per loom None or list of ranks for its processes"""
     spec = []
-    for li, lname in enumerate(("zeta", "alpha")):
+    for li, lname in enumerate(getattr(ranks, "names", ("zeta", "alpha"))):
         procs = []
         for pi in range(2):
             pid = 100 * (li + 1) + 10 * pi
@@ -83,6 +88,11 @@ def run(prop, tier):
         # [[2, 0], [1, 3]]: the looms' rank ranges interleave and the first-enumerated process of a loom does not hold its minimum
         rank_cfgs = [[None, None], [[1, 0], [3, 2]], [[0, 1], None], [[2, 0], [1, 3]]] if tier == "quick" else \
                     [[None, None], [[0, 1], None], [None, [0, 1]]] + [[list(p[:2]), list(p[2:])] for p in itertools.permutations(range(4))]
+        # loom names of which one is the beginning of the other (node1 / node10 / node100), in both orders
+        for nm, rk in ((("node1", "node10"), [None, None]), (("node10", "node1"), [[1, 0], [3, 2]]), (("n.1", "n.10"), [[2, 3], [0, 1]])):
+            cfg = Named(rk)
+            cfg.names = nm
+            rank_cfgs.append(cfg)
         variants = []      # (cfg index, label, files)
         for ci, ranks in enumerate(rank_cfgs):
             spec = system(ranks)
